@@ -1,5 +1,7 @@
 import Cfdm.Driver.Parse
 import Cfdm.Model.Indexing
+import Cfdm.Model.IndexBackend
+import Cfdm.Model.FieldSubspace
 namespace Cfdm.Driver.C03
 open Cfdm.Driver Cfdm.PySlice Cfdm.Indexing Cfdm.Arr
 
@@ -40,14 +42,26 @@ def selsWf (shape : List Nat) (sels : List Sel) : Bool :=
 def positionsNat (shape : List Nat) (sels : List Sel) : List (List Nat) :=
   List.zipWith (fun s n => (s.positions n).map Int.toNat) sels shape
 
+/-- Source offsets with the mask rule of the harness applied: with `mmod = k > 0` the element
+whose source offset `o` satisfies `o % k = k - 1` is masked (`--`). -/
+def showSrc (mmod : Nat) (l : List Nat) : String :=
+  "[" ++ String.intercalate "," (l.map (fun o =>
+    if mmod > 0 && o % mmod == mmod - 1 then "--" else toString o)) ++ "]"
+
+def optNat (kv : KV) (k : String) : Option Nat :=
+  match kv.get? k with
+  | none => some 0
+  | some v => v.toNat?
+
 /-- `get`: shape and source flat offsets of the subspace. -/
 def runGet (kv : KV) : String :=
   match (do
     let shape ← parseNatList (← kv.get? "shape")
     let raw ← parseRaws (← kv.get? "ix")
-    some (shape, raw)) with
+    let mmod ← optNat kv "mmod"
+    some (shape, raw, mmod)) with
   | none => "bad-op"
-  | some (shape, raw) =>
+  | some (shape, raw, mmod) =>
     match parseIndices shape raw with
     | .error e => "raised:" ++ e
     | .ok sels =>
@@ -57,7 +71,7 @@ def runGet (kv : KV) : String :=
     let listAxes := (List.range sels.length).filter (fun k => match sels[k]? with | some (.list _) => true | _ => false)
     let other := (List.range sels.length).filter (fun k => !listAxes.contains k)
     let B := seqTake (iota shape) ps (listAxes ++ other)
-    s!"shape={showNatList B.shape} src={showNatList (toList B)}"
+    s!"shape={showNatList B.shape} src={showSrc mmod (toList B)}"
 
 /-- Per-axis groups of (target position, value index along that axis), in the
 order `_set_subspace` performs them.  `m` = extent of the value along this axis
@@ -84,9 +98,12 @@ def runSet (kv : KV) : String :=
     let shape ← parseNatList (← kv.get? "shape")
     let raw ← parseRaws (← kv.get? "ix")
     let vshape ← parseNatList (← kv.get? "vshape")
-    some (shape, raw, vshape)) with
+    let tmmod ← optNat kv "tmmod"
+    let vmmod ← optNat kv "vmmod"
+    let hard ← optNat kv "hard"
+    some (shape, raw, vshape, tmmod, vmmod, hard)) with
   | none => "bad-op"
-  | some (shape, raw, vshape) =>
+  | some (shape, raw, vshape, tmmod, vmmod, hard) =>
     match parseIndices shape raw with
     | .error e => "raised:" ++ e
     | .ok sels =>
@@ -110,12 +127,19 @@ def runSet (kv : KV) : String :=
       (product groups).flatMap (fun pieceTuple => product pieceTuple)
     let vshapeFull := (List.range nd).map (fun k => match vext.getD k none with | none => 1 | some e => e)
     let size := shape.foldl (· * ·) 1
-    let init : Array (Option Nat) := Array.replicate size none
-    let final := writes.foldl (fun (acc : Array (Option Nat)) w =>
+    -- masks (numpy.ma semantics, element by element): with `tmmod = k > 0` the target element
+    -- at flat offset `t` starts masked iff `t % k = k - 1`; likewise the value element `v` with
+    -- `vmmod`.  A write replaces value AND mask; under a hard mask a masked target is left alone.
+    let rule (k o : Nat) : Bool := k > 0 && o % k == k - 1
+    let init : Array (Option Nat × Bool) := (Array.range size).map (fun t => (none, rule tmmod t))
+    let final := writes.foldl (fun (acc : Array (Option Nat × Bool)) w =>
       let t := ravel shape (w.map (·.1))
       let v := ravel vshapeFull (w.map (·.2))
-      acc.set! t (some v)) init
-    s!"tgt={showOptNatList final.toList}"
+      let cur := acc.getD t (none, false)
+      if hard != 0 && cur.2 then acc else acc.set! t (some v, rule vmmod v)) init
+    let toks := final.toList.map (fun (e : Option Nat × Bool) =>
+      if e.2 then "--" else match e.1 with | none => "-" | some v => toString v)
+    "tgt=[" ++ String.intercalate "," toks ++ "]"
 
 /-- Bounds reversal decision for a selector on axis 0 of a 1-d coordinate. -/
 def runBrev (kv : KV) : String :=
@@ -133,11 +157,113 @@ def runBrev (kv : KV) : String :=
       | s => s
     s!"reversed={boundsReversed sel'}"
 
+/-- `geth5`: the same observable as `get`, evaluated through the model of `netcdf_indexer._index`
+on a variable that is NOT natively orthogonal (h5netcdf): `_variable_subspace` (negative steps
+and unsorted lists converted to an acceptable read + re-order) with at most one sequence index,
+the remaining sequence indices one at a time in memory. -/
+def runGetH5 (kv : KV) : String :=
+  match (do
+    let shape ← parseNatList (← kv.get? "shape")
+    let raw ← parseRaws (← kv.get? "ix")
+    let mmod ← optNat kv "mmod"
+    some (shape, raw, mmod)) with
+  | none => "bad-op"
+  | some (shape, raw, mmod) =>
+    match parseIndices shape raw with
+    | .error e => "raised:" ++ e
+    | .ok sels =>
+    if !selsWf shape sels then "rejected" else
+    let listAxes := (List.range sels.length).filter (fun k => IndexBackend.isList (sels.getD k (.slice none none none)))
+    let B := match listAxes with
+      | [] => IndexBackend.variableSubspace (iota shape) sels
+      | [_] => IndexBackend.variableSubspace (iota shape) sels
+      | first :: rest => IndexBackend.indexNonOrth (iota shape) sels first rest
+    s!"shape={showNatList B.shape} src={showSrc mmod (toList B)}"
+
+/-- What `_variable_subspace` hands to the library for one axis (level-2 stream: an intermediate,
+never part of the pass/fail diff). -/
+def runConv (kv : KV) : String :=
+  match (do
+    let n ← (← kv.get? "n").toNat?
+    let sel ← parseSel (← kv.get? "sel")
+    some (n, sel)) with
+  | none => "bad-op"
+  | some (n, sel) =>
+    if !sel.wf n then "rejected" else
+    let ar := IndexBackend.convSel n sel
+    s!"read={showNatList (IndexBackend.posNat n ar.read)} ok={IndexBackend.h5Accepts n ar.read} got={showNatList (IndexBackend.delivered n ar)}"
+
+section FieldStream
+open Cfdm.FieldSubspace
+
+/-- `key|axis,axis|trailing bounds dims or -|ring parts (0 = none)`. -/
+def parseConstruct (axes : List (String × Nat)) (s : String) : Option (Construct Nat) :=
+  match s.splitOn "|" with
+  | [key, ax, b, r] => do
+    let caxes := if ax.isEmpty then [] else ax.splitOn ","
+    let cshape := caxes.map (sizeOf axes)
+    let bounds ← if b == "-" then some none else do
+      let tr ← (b.splitOn ",").mapM String.toNat?
+      some (some (iota (cshape ++ tr)))
+    let np ← r.toNat?
+    let ring := if np == 0 then none else some (iota (cshape ++ [np]))
+    some { key := key, axes := caxes, data := iota cshape, bounds := bounds, ring := ring }
+  | _ => none
+
+def parseAxis (s : String) : Option (String × Nat) :=
+  match s.splitOn ":" with
+  | [k, n] => n.toNat?.map (fun m => (k, m))
+  | _ => none
+
+def showArr (mmod : Nat) (A : Arr Nat) : String := s!"{showNatList A.shape}:{showSrc mmod (toList A)}"
+def showOptArr (mmod : Nat) (o : Option (Arr Nat)) : String :=
+  match o with | none => "-" | some A => showArr mmod A
+
+/-- `field`: `Field.__getitem__` on an abstract field whose arrays hold their own flat offsets. -/
+def runField (kv : KV) : String :=
+  match (do
+    let axes ← parseListWith parseAxis ';' (← kv.get? "axes")
+    let dax ← stripBrackets (← kv.get? "daxes")
+    let daxes := if dax.isEmpty then [] else dax.splitOn ","
+    let cons ← parseListWith (parseConstruct axes) ';' (← kv.get? "cons")
+    let raw ← parseRaws (← kv.get? "ix")
+    let mmod ← optNat kv "mmod"
+    let f : Cfdm.FieldSubspace.Field Nat :=
+      { axes := axes, dataAxes := daxes, data := iota (daxes.map (sizeOf axes)), constructs := cons }
+    some (f, raw, mmod)) with
+  | none => "bad-op"
+  | some (f, raw, mmod) =>
+    match subspaceField f raw with
+    | .error e => "raised:" ++ e
+    | .ok g =>
+      let cs := g.constructs.map (fun (c : Construct Nat) =>
+        s!"{c.key}={showArr mmod c.data}:b{showOptArr mmod c.bounds}:r{showOptArr mmod c.ring}")
+      s!"sizes={showNatList (g.axes.map Prod.snd)} data={showArr mmod g.data} " ++ String.intercalate " " cs
+end FieldStream
+
+/-- `ishape`: `netcdf_indexer.index_shape` of the parsed tuple (an intermediate: level 2). -/
+def runIShape (kv : KV) : String :=
+  match (do
+    let shape ← parseNatList (← kv.get? "shape")
+    let raw ← parseRaws (← kv.get? "ix")
+    some (shape, raw)) with
+  | none => "bad-op"
+  | some (shape, raw) =>
+    match parseIndices shape raw with
+    | .error e => "raised:" ++ e
+    | .ok sels =>
+    if !selsWf shape sels then "rejected" else
+    s!"ishape={showNatList (indexShape shape sels)}"
+
 def run (sub : String) (kv : KV) : String :=
   match sub with
+  | "ishape" => runIShape kv
   | "get" => runGet kv
+  | "geth5" => runGetH5 kv
+  | "conv" => runConv kv
   | "set" => runSet kv
   | "brev" => runBrev kv
+  | "field" => runField kv
   | _ => "bad-op"
 
 end Cfdm.Driver.C03
